@@ -141,7 +141,8 @@ func TestSim(t *testing.T) {
 		if rf.Tape == nil {
 			tape = NewTape(rf.Seed, rf.Run) // replay by seed
 		}
-		r := RunOne(t, tape, sc, RunOpts{Trace: true, TraceKeep: 400, MaxStep: *fMaxStep, Params: params})
+		r := RunOne(t, tape, sc, RunOpts{Free: *fParallel, Trace: true, TraceKeep: 400, MaxStep: *fMaxStep, Params: params})
+		addRaces(&r)
 		emit(toLine(r, true))
 		return
 	}
@@ -160,7 +161,8 @@ func TestSim(t *testing.T) {
 			os.WriteFile(*fOut+".cur", []byte(fmt.Sprint(run)), 0o644)
 		}
 		tape := NewTape(*fSeed, run)
-		r := RunOne(t, tape, sc, RunOpts{Trace: *fTrace || dump != nil, TraceKeep: traceKeep(dump != nil || *fTrace), MaxStep: *fMaxStep, Params: params})
+		r := RunOne(t, tape, sc, RunOpts{Free: *fParallel, Trace: *fTrace || dump != nil, TraceKeep: traceKeep(dump != nil || *fTrace), MaxStep: *fMaxStep, Params: params})
+		addRaces(&r)
 		bad := len(r.Violations) > 0 || r.Panic != ""
 		if dump != nil {
 			fmt.Fprintf(dump, "== run %d digest %016x steps %d ended %s\n", r.Run, r.Digest, r.Steps, r.Ended)
@@ -173,6 +175,32 @@ func TestSim(t *testing.T) {
 		if bad && *fStopOnV {
 			break
 		}
+	}
+	if *fParallel {
+		// the testing package marks the test failed when the race detector
+		// reported anything; the reports are in the result lines
+		if out != nil {
+			out.Flush()
+		}
+		os.Exit(0)
+	}
+}
+
+// race flavour: the reports the detector wrote during the run become
+// violations of C10 (races purely inside the harness are machinery trouble)
+var raceTail *raceLogTail
+
+func addRaces(r *RunResult) {
+	if !*fParallel {
+		return
+	}
+	if raceTail == nil {
+		raceTail = newRaceLogTail(os.Getenv("VERIF_RACELOG"))
+	}
+	viol, harness := raceViolations(raceTail.Next())
+	r.Violations = append(r.Violations, viol...)
+	for _, h := range harness {
+		r.Violations = append(r.Violations, Violation{Property: "SIM", Rule: "harness-race", Msg: h})
 	}
 }
 
